@@ -105,3 +105,9 @@ add("C14", "exploration", "exhaustive enumeration of partial insertions (all non
     "the whole [-120,60] lattice; after the real init_states() one real update_states at the same voltage may move no gate by more than 1e-12 for three time steps; untouched rows/columns compared exactly.",
     "Oracle is the implementation's own update rule (no reference kinetics); fixed list of voltage triples at module level, full lattice at kernel level.",
     "DESIGN.md §7 C14")
+
+add("C05", "exploration", "bounded-exhaustive enumeration of (model x trainable kind x scheme x backend x checkpoint layout) with jax.grad through the real integrate compared against converged central finite differences in float64",
+    "26 trainable kinds on three models (incl. initial voltages exactly at rate-function singularities, synaptic states, parameters shared over groups of unequal size, data-fed "
+    "stimulus amplitudes and data_set values) crossed with schemes, backends and checkpoint layouts (quick: each kind once + full cross for four representative kinds; thorough: full product).",
+    "5-step runs, quadratic losses; finite differences at two step sizes must agree to 1e-6 or the configuration is reported inconclusive.",
+    "DESIGN.md §7 C05")
